@@ -559,6 +559,31 @@ func MustFollow(from ssa.Instruction, is func(ssa.Instruction) bool, exits exitK
 // MustFollowPt is MustFollow starting at an arbitrary point; edges in `cut` are not followed.
 func MustFollowPt(start Pt, is func(ssa.Instruction) bool, exits exitKind, cut map[edge]bool) (bool, []string) {
 	visited := map[*ssa.BasicBlock]bool{}
+	// branches on a boolean parameter are correlated: what is known about it at the start holds on the whole path
+	known := map[ssa.Value]bool{}
+	for _, g := range guardsAt(start.B) {
+		if p, ok := g.Cond.(*ssa.Parameter); ok {
+			known[p] = g.Truth
+		}
+	}
+	decided := func(b *ssa.BasicBlock) (int, bool) {
+		if len(b.Instrs) == 0 {
+			return 0, false
+		}
+		ifi, ok := b.Instrs[len(b.Instrs)-1].(*ssa.If)
+		if !ok {
+			return 0, false
+		}
+		v, neg := stripNot(ifi.Cond)
+		t, ok := known[v]
+		if !ok {
+			return 0, false
+		}
+		if t != neg {
+			return 0, true
+		}
+		return 1, true
+	}
 	var path []string
 	var witness []string
 	var walk func(b *ssa.BasicBlock, i int) bool // returns false when an exit was reached without a satisfier
@@ -587,8 +612,9 @@ func MustFollowPt(start Pt, is func(ssa.Instruction) bool, exits exitKind, cut m
 				return true
 			}
 		}
+		only, dec := decided(b)
 		for si, s := range b.Succs {
-			if cut[edge{b, si}] {
+			if cut[edge{b, si}] || (dec && si != only) {
 				continue
 			}
 			if visited[s] {
